@@ -13,6 +13,7 @@ import (
 	"github.com/hujm2023/go-sms-protocol/datacoding"
 	gsm7 "github.com/hujm2023/go-sms-protocol/datacoding/gsm7encoding"
 	"github.com/hujm2023/go-sms-protocol/logger"
+	"github.com/hujm2023/go-sms-protocol/verifhook"
 )
 
 // Protocol represents the enumeration values for supported protocol types.
@@ -113,6 +114,7 @@ func (b *BatchDataCodingEncoder) Build(ctx context.Context) (contents [][]byte, 
 		})
 	}
 	_ = eg.Wait()
+	verifhook.PermuteBatch(len(encoders), func(i, j int) { encoders[i], encoders[j] = encoders[j], encoders[i] })
 
 	// Filter out those that cannot be encoded.
 	encoders = lo.Filter(encoders, func(encoder *encoder, _ int) bool {
@@ -178,6 +180,7 @@ func (s *encoder) Name() string {
 }
 
 func (s *encoder) Run(ctx context.Context) {
+	verifhook.Yield("batch.run", s.msgFmt.ToInt(), s.msgFmt.Priority())
 	var encoder datacoding.Codec
 	switch s.protocol {
 	case SMPP:
